@@ -637,10 +637,113 @@ pub fn settz_strategy() -> impl Strategy<Value = SetTz> {
     prop::collection::vec(one, 1..6).prop_map(|calls| SetTz { calls })
 }
 
+// ---- differences between times of different zones, or of a time that was moved by a duration ------------------
+
+/// `T1 [Z] to T2` / `T1 to T2 [Z]` with at most one explicit zone (the other side is in the default zone): each side
+/// denotes an instant of today, the result is the absolute difference of the two instants. The first operand may be
+/// held in a name, also as `name = T1 +- duration` (the clock moved modulo 24 h). Asserted when both UTC clocks stay
+/// on the day they were written for (what happens across midnight is not part of the statement).
+#[derive(Clone, Debug, Serialize, Deserialize)]
+pub struct TimeDiff {
+    pub a: TimeLit,
+    pub b: TimeLit,
+    /// the explicit zone and the side that carries it (0 none, 1 first, 2 second)
+    pub zone: Zone,
+    pub side: u8,
+    pub default_tz: Option<Zone>,
+    /// the first operand is moved by a duration first (needs the name)
+    pub moved: Option<(bool, DurSpec)>,
+    pub via: bool,
+}
+
+pub struct TimeDiffs;
+
+impl Prop for TimeDiffs {
+    type Case = TimeDiff;
+    fn name(&self) -> &'static str {
+        "time-differences"
+    }
+    fn check(&self, w: &mut Worker, c: &TimeDiff) -> Verdict {
+        let cfg = match &c.default_tz {
+            Some(z) => Cfg::default().with_tz(&z.text()),
+            None => Cfg::default(),
+        };
+        let dz = c.default_tz.clone().unwrap_or(Zone::Abbr("UTC".into()));
+        let (za, zb) = (if c.side % 3 == 1 { c.zone.clone() } else { dz.clone() }, if c.side % 3 == 2 { c.zone.clone() } else { dz.clone() });
+        let mut first = Line::default();
+        first.push(c.a.tok());
+        if c.side % 3 == 1 {
+            first.push(c.zone.tok(0, 0));
+        }
+        let n_first = first.toks.len();
+        let mut whole = first.clone();
+        whole.push(Tok::word("to", Class::Conn));
+        whole.push(c.b.tok());
+        if c.side % 3 == 2 {
+            whole.push(c.zone.tok(0, 0));
+        }
+        let via = c.via || c.moved.is_some();
+        let text = if via {
+            let mut def = first.clone();
+            if let Some((plus, d)) = &c.moved {
+                def.push(Tok::op(if *plus { '+' } else { '-' }));
+                for t in d.toks() {
+                    def.push(t);
+                }
+            }
+            let mut tmp = Line::default();
+            for t in def.toks.iter().chain(whole.toks[n_first..].iter()) {
+                tmp.push(t.clone());
+            }
+            tmp.via_variable(0, def.toks.len(), "shift start", ",", ".")
+        } else {
+            whole.render(",", ".")
+        };
+        let rendered = format!("[default zone {}] {}", dz.text(), text.replace('\n', " ; "));
+        // the wall clock of the first operand after the move, when the move stays on the same day
+        let wall_a = match &c.moved {
+            None => c.a.wall(),
+            Some((plus, d)) => {
+                let m = d.seconds().rem_euclid(86400);
+                let m = if d.seconds() < 0 { -((-d.seconds()).rem_euclid(86400)) } else { m };
+                let moved = if *plus { c.a.wall() + m } else { c.a.wall() - m };
+                if !(0..86400).contains(&moved) {
+                    return Verdict::skip("the move crosses midnight", rendered);
+                }
+                moved
+            }
+        };
+        let (ua, ub) = (wall_a - za.offset() as i64 * 60, c.b.wall() - zb.offset() as i64 * 60);
+        if !(0..86400).contains(&ua) || !(0..86400).contains(&ub) {
+            return Verdict::skip("a UTC clock on another day", rendered);
+        }
+        let out = match w.eval(&cfg, "en", &text) {
+            Ok(o) => o,
+            Err(p) => return Verdict::fail(format!("panic at {}: {}", p.site, p.message), rendered),
+        };
+        let exp = (ua - ub).abs();
+        let mut acc = Acc::new();
+        match out.slots.last() {
+            Some(Slot::Ok { v: V::Dur(s, 0), .. }) if *s == exp => {}
+            other => acc.fail(format!("expected Duration({} s) = |{} - {}| (UTC clocks) got {:?}", exp, hms(ua), hms(ub), other.map(|s| s.brief()))),
+        }
+        acc.finish(rendered).nt(za.offset() != zb.offset() || c.moved.is_some()).class_if(za.offset() != zb.offset(), "operands-in-zones-of-different-offsets").class_if(c.moved.is_some(), "first-operand-moved-by-a-duration").class_if(via, "first-operand-held-in-a-name").class_if(c.default_tz.is_some(), "default-zone-set")
+    }
+}
+
+pub fn timediff_strategy() -> impl Strategy<Value = TimeDiff> {
+    let defaults = prop_oneof![5 => Just(None), 3 => prop::sample::select(vec![Zone::Abbr("EST".into()), Zone::Abbr("CET".into()), Zone::Abbr("IST".into()), Zone::Gmt(false, 5, 30, 1)]).prop_map(Some)];
+    let t = || time_strategy().prop_map(|t| TimeLit { form: t.form % 2, ..t });
+    (t(), t(), zone_strategy(), 0u8..3, defaults, prop::option::weighted(0.35, (any::<bool>(), dur_strategy())), any::<bool>()).prop_map(|(a, b, zone, side, default_tz, moved, via)| {
+        let moved = moved.map(|(p, d)| (p, DurSpec { negative: false, ..d }));
+        TimeDiff { a, b, zone, side, default_tz, moved, via }
+    })
+}
+
 pub fn run(ctx: &Ctx) {
     let _ = monotone_index(0, 1);
-    ctx.rule("generated: times H:MM[:SS] (0-23, with/without leading zero) and h[:MM] am|pm (1-11, any letter case, with/without the blank), optional zone = every table abbreviation of 2-4 capitals that means nothing else to the lexer, GMT, UTC, GMT+-h, GMT+-h:mm, GMT+-hhmm (h 0-19); T [Z1] to|as|in|into Z2, Z1->Z2->Z1 chains, T [Z] +- durations (1-3 parts, seconds..days plus long ones in weeks, years, tens of millions of hours and up to 2^32 seconds, negative-literal counts), T1 to T2; default zone from a pool set through set_timezone; set_timezone call sequences incl. rejected strings; ALL ordered zone pairs enumerated at fixed wall times; metamorphic step (a quarter of the cases): the time (with its zone) also held in a name bound on an earlier line; oracle: offsets from the zone table of config.json, shown = wall - off(Z1) + off(Z2) mod 24 h read from the AST (instant + offset) and from the printed 'HH:MM:SS NAME', arithmetic mod 24 h, |T2-T1| for differences, independence from the default zone when Z1 is explicit; non-trivial = off(Z1) != off(Z2) / duration not a multiple of 24 h / distinct times");
-    ctx.assume("12:xx am/pm is left out (pinned by the suite); T1 Z1 to T2 Z2 with different zones is not generated (the statement does not define it)");
+    ctx.rule("generated: times H:MM[:SS] (0-23, with/without leading zero) and h[:MM] am|pm (1-11, any letter case, with/without the blank), optional zone = every table abbreviation of 2-4 capitals that means nothing else to the lexer, GMT, UTC, GMT+-h, GMT+-h:mm, GMT+-hhmm (h 0-19); T [Z1] to|as|in|into Z2, Z1->Z2->Z1 chains, T [Z] +- durations (1-3 parts, seconds..days plus long ones in weeks, years, tens of millions of hours and up to 2^32 seconds, negative-literal counts), T1 to T2, also with one side in an explicit zone of another offset and with the first operand held in a name or moved by a duration first ('x = T + D' / 'x to T2'); default zone from a pool set through set_timezone; set_timezone call sequences incl. rejected strings; ALL ordered zone pairs enumerated at fixed wall times; metamorphic step (a quarter of the cases): the time (with its zone) also held in a name bound on an earlier line; oracle: offsets from the zone table of config.json, shown = wall - off(Z1) + off(Z2) mod 24 h read from the AST (instant + offset) and from the printed 'HH:MM:SS NAME', arithmetic mod 24 h, |T2-T1| for differences, independence from the default zone when Z1 is explicit; non-trivial = off(Z1) != off(Z2) / duration not a multiple of 24 h / distinct times");
+    ctx.assume("12:xx am/pm is left out (pinned by the suite); T1 Z1 to T2 Z2 with two explicit zones is not generated (it reads as a conversion); with ONE explicit zone the two sides are instants of today and their difference is asserted when both UTC clocks stay on that day");
     let times: &[(u8, u8)] = match ctx.tier {
         crate::engine::Tier::Quick => &[(10, 30), (23, 45)],
         crate::engine::Tier::Thorough => &[(0, 0), (1, 15), (5, 59), (10, 30), (12, 0), (13, 1), (18, 44), (20, 20), (23, 45), (23, 59)],
@@ -648,12 +751,14 @@ pub fn run(ctx: &Ctx) {
     ctx.run_table(&Times, "all-zone-pairs", pair_table(times), true);
     ctx.run_generated(&Times, ctx.tier.pick(100_000, 1_000_000), case_strategy);
     ctx.run_generated(&SetTimezone, ctx.tier.pick(1_000, 10_000), settz_strategy);
+    ctx.run_generated(&TimeDiffs, ctx.tier.pick(30_000, 300_000), timediff_strategy);
 }
 
 pub fn replay(w: &mut Worker, sub: &str, case: &serde_json::Value) -> Option<Verdict> {
     match sub {
         "times" => crate::engine::replay_case(&Times, w, case),
         "set-timezone" => crate::engine::replay_case(&SetTimezone, w, case),
+        "time-differences" => crate::engine::replay_case(&TimeDiffs, w, case),
         _ => None,
     }
 }
